@@ -89,8 +89,11 @@ def c11_tree(st, log):
          % (st["gout"], log)]
     for i, d in enumerate(st["defs"]):
         t = i + 1
-        reads = " ".join(C11_PATH[r] for r in sorted(d["reads"]))
-        cmd = ("echo 'T //p:t%d' >> %s; for f in %s; do [ \"$(cat $f 2>/dev/null)\" = ok ] || exit 1; done" % (t, log, reads))
+        # every path the command reads must contain "ok"; with test arguments (plz sets $TESTS and appends them to the
+        # command, hence the trailing `:`) only the named ones are checked: a partial run of the test
+        reads = " ".join("%s=%s" % (r, C11_PATH[r]) for r in sorted(d["reads"]))
+        cmd = ("echo 'T //p:t%d' >> %s; for e in %s; do n=${e%%%%=*}; f=${e#*=}; case \" ${TESTS:-} \" in \"  \"|*\" $n \"*) "
+               "[ \"$(cat $f 2>/dev/null)\" = ok ] || exit 1;; esac; done; :" % (t, log, reads))
         lines = ['    name = "t%d",' % t]
         if t == 2:
             lines += ['    srcs = ["b.txt"],', '    outs = ["t2.bin"],',
@@ -133,12 +136,12 @@ def c11_describe(step):
     return a
 
 
-def run_tests(repo, req):
-    """`plz test` of the requested tests; returns dict(rc, outcome{t}, cached{t}, ran[t...], out)."""
+def run_tests(repo, req, args=()):
+    """`plz test` of the requested tests (+ test arguments); returns dict(rc, outcome{t}, cached{t}, ran[t...], out)."""
     xml = os.path.join(repo.root, "plz-out", "log", "test_results.xml")
     if os.path.exists(xml):
         os.remove(xml)
-    rc, outp, _, lines = repo.plz(["test"] + ["//%s:t%d" % (PKG, t) for t in req], timeout=300)
+    rc, outp, _, lines = repo.plz(["test"] + ["//%s:t%d" % (PKG, t) for t in req] + list(args), timeout=300)
     if rc == -9:
         raise vlib.Infra("plz test timed out (machine overloaded?):\n%s" % outp[-1000:])
     ran = [int(l.split(":t")[1]) for l in lines if l.startswith("T ")]
@@ -163,16 +166,16 @@ _fresh_memo = {}
 _fresh_lock = threading.Lock()
 
 
-def fresh_run(ctx, st, req):
+def fresh_run(ctx, st, req, args=()):
     """Outcome of a fresh `plz test` (clean copy of the tree, empty plz-out, no cache); memoised per tree and request."""
-    key = hashlib.sha1(json.dumps([c11_tree(st, "@LOG@"), sorted(req)], sort_keys=True).encode()).hexdigest()
+    key = hashlib.sha1(json.dumps([c11_tree(st, "@LOG@"), sorted(req), list(args)], sort_keys=True).encode()).hexdigest()
     with _fresh_lock:
         if key in _fresh_memo:
             return _fresh_memo[key]
     d = os.path.join(ctx.scratch, "fresh-%s-%d" % (key[:16], threading.get_ident()))
     r = TRepo(d, d + ".log")
     r.sync(c11_tree(st, d + ".log"))
-    res = run_tests(r, req)
+    res = run_tests(r, req, args)
     r.destroy()
     if os.path.exists(d + ".log"):
         os.remove(d + ".log")
@@ -217,7 +220,7 @@ def c11_replay(ctx, idx, beh, opts):
     st = dict(file={f: "ok" for f in ("d1", "d2", "s", "b")}, gout="ga", ddn="x", defs=[dict(d) for d in beh["init"]["defs"]])
     repo.sync(c11_tree(st, log))
     viols, trace, tests, drift = [], [], 0, 0
-    runs = {1: [], 2: []}       # real executions: (step index, inputs term, real outcome)
+    runs = {1: [], 2: []}       # real executions: (step index, inputs term, real outcome, test arguments)
     for si, step in enumerate(beh["steps"]):
         act = step["act"]
         if act == "DeletePlzOut":
@@ -233,12 +236,13 @@ def c11_replay(ctx, idx, beh, opts):
         req = sorted(step["req"])
         expect = e2e.by_target(step["expect"])
         inputs = e2e.by_target(step["inputs"])
-        obs = run_tests(repo, req)
-        trace.append("test %s -> rc=%d outcome=%s ran=%s cached=%s" % (req, obs["rc"], obs["outcome"], obs["ran"],
+        args = sorted(step.get("args", []))
+        obs = run_tests(repo, req, args)
+        trace.append("test %s%s -> rc=%d outcome=%s ran=%s cached=%s" % (req, " args=%s" % args if args else "", obs["rc"], obs["outcome"], obs["ran"],
                                                                       sorted(t for t in obs["cached"] if obs["cached"][t])))
         detail = dict(behaviour=beh, step=si, trace=list(trace))
         # the oracle: a fresh run of the same tree, which the spec's Fresh must predict
-        fr = fresh_run(ctx, st, req)
+        fr = fresh_run(ctx, st, req, args)
         for t in req:
             if fr["outcome"].get(t) != expect[t]:
                 raise vlib.Infra("fresh run disagrees with the spec's Fresh for t%d (spec/harness error): spec %s, fresh run %s rc=%s\n%s\n%s"
@@ -258,17 +262,20 @@ def c11_replay(ctx, idx, beh, opts):
                 if wrong:
                     viols.append(("C11 executed-test-reports-%s-where-fresh-run-reports-%s" % (obs["outcome"][t], expect[t]),
                                   dict(detail, target=t, output=obs["out"])))
-                runs[t].append((si, inputs[t], obs["outcome"][t]))
+                runs[t].append((si, inputs[t], obs["outcome"][t], args))
                 continue
             # not executed: the result was reused.  Allowed only if a passing run on exactly the current runtime inputs
             # (test command, binary, data files, runtime dependencies: spec term Inputs) really happened before.
             cur = dict(cmd=sorted(inputs[t]["cmd"]), files=sorted((e["p"], e["c"]) for e in inputs[t]["files"]))
-            may = any(o == "pass" and dict(cmd=sorted(i["cmd"]), files=sorted((e["p"], e["c"]) for e in i["files"])) == cur
-                      for _, i, o in runs[t])
+            # ... by a FULL run: a run with test arguments executes only part of the test
+            may = any(o == "pass" and not a and dict(cmd=sorted(i["cmd"]), files=sorted((e["p"], e["c"]) for e in i["files"])) == cur
+                      for _, i, o, a in runs[t])
             if not wrong and may and expect[t] == "pass":
                 continue
             if last is None:
                 sigs = ["C11 result-reported-without-any-execution"]
+            elif last[3]:
+                sigs = ["C11 result-of-run-with-test-arguments-reused"]
             elif last[2] != "pass":
                 sigs = ["C11 failing-result-reused"]
             else:
@@ -307,6 +314,8 @@ def kinds_of(beh):
         a = s["act"]
         if a == "EditFile":
             a += ":" + s["f"]
+        if a == "Test" and s.get("args"):
+            a = "TestArgs"
         ks.append(a)
     return tuple(ks)
 
@@ -338,6 +347,19 @@ def sample_size(default):
     return min(int(v), default) if v else default
 
 
+def has_trap(beh):
+    """The spec marks the invocations where a stored result of an earlier run WITH arguments would now give a wrong answer."""
+    return any(s["act"] == "Test" and s.get("trap") for s in beh["steps"])
+
+
+def c11_sample(behs, n, rng):
+    """Stratified by step kinds, with a fifth of the sample reserved for the histories the spec marks as traps."""
+    nt = [b for b in behs if c11_nontrivial(b)]
+    traps = stratified([b for b in nt if has_trap(b)], kinds_of, n // 5, rng)
+    keys = {json.dumps(b, sort_keys=True) for b in traps}
+    return traps + stratified([b for b in nt if json.dumps(b, sort_keys=True) not in keys], kinds_of, n - len(traps), rng)
+
+
 def uniq_sorted(behs):
     seen, out = set(), []
     for b in sorted(behs, key=lambda b: json.dumps(b, sort_keys=True)):
@@ -354,8 +376,8 @@ CLAIM11 = dict(
          "a built test binary) whose outcome is a spec function of the test command and the files present in the runtime directory, the "
          "reuse decision of test_step.go (stored RuntimeHash of the last passing run, target state) and edit histories (data / source / "
          "binary contents, data swap, renames of a dependency output and of a data-directory entry, test command, data list, runtime deps, "
-         "no_test_output, plz-out deletion). TLC checks that the algorithm on injective hashes satisfies C11 (reported = fresh outcome, "
-         "reuse only with a passing run on the current runtime inputs, failing results never reused) and that each recorded flaw of the "
+         "no_test_output, plz-out deletion; invocations with and without test arguments, which make the command check only the named files). TLC checks that the algorithm on injective hashes satisfies C11 (reported = fresh outcome, "
+         "reuse only with a passing FULL run on the current runtime inputs -- never the result of a run with test arguments --, failing results never reused) and that each recorded flaw of the "
          "real RuntimeHash is a counterexample; one history per distinct reachable state is replayed against the real plz binary: exit "
          "status, per-target outcome from test_results.xml and the executed test commands (action log) are compared with the spec's "
          "expectation, and the expectation with a real fresh run of the same tree.",
@@ -383,26 +405,29 @@ def run_c11(ctx):
         total = len(behs)
     else:
         # design level, in the background: the algorithm on injective hashes satisfies C11 ...
-        mc.append(pool.submit(vlib.tlc, ctx, "TestReuse", "MC_TestReuse.cfg" if ctx.quick else "MC_TestReuse_3.cfg", workers=6, timeout=1500))
+        # (quick: the initial repository selected by the seed, as for the generation; thorough: all, one more edit)
+        mc.append(pool.submit(vlib.tlc, ctx, "TestReuse", "MC_TestReuse_s%d.cfg" % (ctx.seed % 3 + 1) if ctx.quick else "MC_TestReuse_3.cfg",
+                              workers=6, timeout=3000))
         if not ctx.quick:
-            # ... each recorded flaw of the real hash is a counterexample, and the flaws bite only under rename / no_test_output edits
-            for cfg in ("MC_TestReuse_flaw_paths.cfg", "MC_TestReuse_flaw_noout.cfg"):
+            # ... the directory hash of the code (entry names not hashed: known finding), the two repaired flaws of RuntimeHash and
+            # "results of runs with test arguments are stored" are each a counterexample of the model ...
+            for cfg in ("MC_TestReuse_dirnames_known.cfg", "MC_TestReuse_paths_known.cfg", "MC_TestReuse_noout_known.cfg", "MC_TestReuse_args_flaw.cfg"):
                 fl = vlib.tlc(ctx, "TestReuse", cfg, workers=4, allow_violation=True)
                 ctx.extra["model_counterexample_" + cfg[13:-4]] = fl.invariant
-            vlib.tlc(ctx, "TestReuse", "MC_TestReuse_known.cfg", workers=8, timeout=1500)
+            # ... and with the hashes as the current code has them C11 holds as long as no data-directory entry is renamed
+            vlib.tlc(ctx, "TestReuse", "MC_TestReuse_code.cfg", workers=8, timeout=1500)
         if ctx.quick:
             r = vlib.tlc(ctx, "TestReuse", "GEN_TestReuse_2s%d.cfg" % (ctx.seed % 3 + 1), workers=8, timeout=600)
             behs = uniq_sorted(r.behaviours)
             total = len(behs)
-            behs = stratified([b for b in behs if c11_nontrivial(b)], kinds_of, sample_size(100), random.Random(ctx.seed))
+            behs = c11_sample(behs, sample_size(100), random.Random(ctx.seed))
         else:
             r2 = vlib.tlc(ctx, "TestReuse", "GEN_TestReuse_2.cfg", workers=8, timeout=1500)
             r3 = vlib.tlc(ctx, "TestReuse", "GEN_TestReuse_3.cfg", workers=8, timeout=3000)
             b2, b3 = uniq_sorted(r2.behaviours), uniq_sorted(r3.behaviours)
             total = len(b2) + len(b3)
             rng = random.Random(ctx.seed)
-            behs = stratified([b for b in b2 if c11_nontrivial(b)], kinds_of, sample_size(700), rng) \
-                + stratified([b for b in b3 if c11_nontrivial(b)], kinds_of, sample_size(700), rng)
+            behs = c11_sample(b2, sample_size(700), rng) + c11_sample(b3, sample_size(700), rng)
     ctx.extra["histories_enumerated_by_tlc"] = total
     with ThreadPoolExecutor(max_workers=12) as ex:
         futs = [ex.submit(c11_replay, ctx, i, b, {}) for i, b in enumerate(behs)]
@@ -680,7 +705,8 @@ def run_c24(ctx):
         vlib.build_vh()
         vlib.tlc(ctx, "Changes", "MC_Changes.cfg", workers=8)
         if not ctx.quick:
-            for cfg in ("MC_Changes_flaw_provides.cfg", "MC_Changes_flaw_noout.cfg"):
+            # the provider-switch flaw (still in the code: known finding) and the repaired no_test_output flaw are counterexamples
+            for cfg in ("MC_Changes_provides_known.cfg", "MC_Changes_noout_known.cfg"):
                 fl = vlib.tlc(ctx, "Changes", cfg, workers=4, allow_violation=True)
                 ctx.extra["model_counterexample_" + cfg[11:-4]] = fl.invariant
         r = vlib.tlc(ctx, "Changes", "GEN_Changes_q.cfg" if ctx.quick else "GEN_Changes_t.cfg", workers=8)
